@@ -30,6 +30,29 @@ def apalache(args, timeout=900):
     return ok, round(time.time() - t0, 1)
 
 
+def tlaps(timeout=900):
+    """The inductive step once more, by the TLA+ proof system (spec/proofs/LoopIndProof.tla); the cache goes to a scratch copy."""
+    d = os.path.join(core.WORK, "tlaps")
+    shutil.rmtree(d, ignore_errors=True)
+    os.makedirs(d, exist_ok=True)
+    for f in ("LoopInd.tla", os.path.join("proofs", "LoopIndProof.tla")):
+        shutil.copy(os.path.join(core.SPEC, f), d)
+    t0 = time.time()
+    try:
+        p = subprocess.run(["tlapm", "--toolbox", "0", "0", "LoopIndProof.tla"], cwd=d, stdout=subprocess.PIPE, stderr=subprocess.STDOUT,
+                           universal_newlines=True, timeout=timeout)
+    except subprocess.TimeoutExpired:
+        raise core.MachineryError("tlapm timed out")
+    finally:
+        out = locals().get("p").stdout if locals().get("p") else ""
+        shutil.rmtree(d, ignore_errors=True)
+    import re
+    m = re.search(r"All (\d+) obligations proved", out)
+    if not m and "obligations failed" not in out:
+        raise core.MachineryError("tlapm failed:\n" + out[-1500:])
+    return (int(m.group(1)) if m else 0), round(time.time() - t0, 1)
+
+
 def check(tier="quick", seed=0):
     rep = {"name": "loopind", "tier": tier, "seed": seed, "deviations": {}}
     base, t1 = apalache(["--cinit=CInitOk", "--init=Init", "--inv=IndInv", "--length=0"])
@@ -37,7 +60,12 @@ def check(tier="quick", seed=0):
     dev, t3 = apalache(["--cinit=CInitDev", "--init=IndInit", "--inv=IndInv", "--length=1"])
     rep["model"] = {"module": "LoopInd", "tool": "apalache-mc", "init_implies_inv": base, "inv_is_inductive": step,
                     "pinned_final_step_test_breaks_induction": not dev, "wall_s": [t1, t2, t3]}
+    nobl, t4 = tlaps()
+    rep["model"]["tlaps_obligations_proved"] = nobl
+    rep["model"]["wall_s"].append(t4)
     rep["replayed"] = {}
+    if not nobl:
+        rep["deviations"]["LoopInd.TlapsProofFails"] = {"count": 1, "first": "spec/proofs/LoopIndProof.tla"}
     if not (base and step):
         rep["deviations"]["LoopInd.InductionFails"] = {"count": 1, "first": rep["model"]}
     if dev:
